@@ -182,6 +182,7 @@ class PyEval(MiniEval):
             if isinstance(tgt, ast.Name) and tgt.id == ident and val is not None and (
                     isinstance(val, (ast.Dict, ast.List, ast.Set, ast.Tuple, ast.Constant))
                     or (isinstance(val, ast.Call) and ast.unparse(val.func) in ("functools.cmp_to_key", "cmp_to_key") and len(val.args) == 1 and not val.keywords)
+                    or (isinstance(val, ast.Call) and ast.unparse(val.func) == "re.compile" and len(val.args) == 1 and isinstance(val.args[0], ast.Constant) and not val.keywords)
                     or not any(isinstance(x, (ast.Call, ast.Lambda, ast.Await, ast.Yield, ast.YieldFrom)) for x in ast.walk(val))):
                 # a literal display, or a call-free expression over constants (`_BITS = 1 << NumericType.INT_WIDTH`)
                 try:
@@ -248,6 +249,8 @@ class PyEval(MiniEval):
     def truth(self, v: Any) -> bool:
         if isinstance(v, (bool, int, float, str, tuple, list, dict, set, frozenset)) or v is None:
             return bool(v)
+        if isinstance(v, re.Match):
+            return True
         if isinstance(v, Tok):
             # `__truth__`: the outcome of bool(v) for objects whose class defines __bool__/__len__ (False, or "raise:<Class>")
             t = v.attrs.get("__truth__", True)
@@ -300,7 +303,15 @@ class PyEval(MiniEval):
             if (isinstance(x, tuple) and isinstance(y, tuple)) or (isinstance(x, list) and isinstance(y, list)):
                 return all(orderable(p, q) for p, q in zip(x, y))
             return False
+        def concrete(x: Any) -> bool:
+            return x is None or isinstance(x, (int, float, str)) or (isinstance(x, (tuple, list)) and all(concrete(y) for y in x))
         if not orderable(a, b):
+            if concrete(a) and concrete(b):
+                # concrete Python values: Python's own comparison, its TypeError included (`None < 1`, `"a" < 1`)
+                try:
+                    return {ast.Lt: a < b, ast.LtE: a <= b, ast.Gt: a > b, ast.GtE: a >= b}[type(op)]
+                except TypeError as ex:
+                    raise Raised(str(ex), "TypeError") from None
             raise Unsupported(f"ordering of {a!r}, {b!r}")
         return {ast.Lt: a < b, ast.LtE: a <= b, ast.Gt: a > b, ast.GtE: a >= b}[type(op)]
 
@@ -428,6 +439,11 @@ class PyEval(MiniEval):
                     fm = c.find_method("__getitem__")
                     if fm is not None:
                         return self.call_dunder(fm, v, [self.ev(e.slice, env)], env)
+            if isinstance(v, re.Match):
+                try:
+                    return v[self.ev(e.slice, env)]
+                except (IndexError, TypeError) as ex:
+                    raise Raised(str(ex), type(ex).__name__) from None
             if isinstance(v, dict):
                 k = self.ev(e.slice, env)
                 if k not in v:
@@ -994,8 +1010,16 @@ class PyEval(MiniEval):
             if fn in ("re.split", "re.findall", "re.sub", "re.fullmatch", "re.match", "re.search") and not node.keywords and all(isinstance(x, (str, int)) for x in A()) \
                     and (fn in ("re.split", "re.findall", "re.sub") or True):
                 # pure functions of the standard library on concrete strings (match objects: only their truth is modelled)
-                res = getattr(re, fn[3:])(*A())
-                return res if fn in ("re.split", "re.findall", "re.sub") else (res is not None)
+                return getattr(re, fn[3:])(*A())  # (a match object or None for search / match / fullmatch)
+            if fn == "re.compile" and not node.keywords and len(node.args) == 1 and isinstance(A()[0], str):
+                return re.compile(A()[0])
+            if isinstance(recv, re.Pattern) and m in ("split", "findall", "sub", "fullmatch", "match", "search") and not node.keywords and all(isinstance(x, (str, int)) for x in A()):
+                return getattr(recv, m)(*A())
+            if isinstance(recv, re.Match) and m in ("start", "end", "group", "groups", "span") and not node.keywords and all(isinstance(x, (int, str)) for x in A()):
+                try:
+                    return getattr(recv, m)(*A())
+                except (IndexError, ValueError) as ex:
+                    raise Raised(str(ex), type(ex).__name__) from None
             if fn == "dict.fromkeys" and 1 <= len(node.args) <= 2 and isinstance(A()[0], (list, tuple, dict)):
                 return dict.fromkeys(list(A()[0]), *(A()[1:]))
             if isinstance(recv, (list, tuple)) and m in ("index", "count") and len(node.args) == 1 and not node.keywords:
